@@ -3,6 +3,12 @@
 import json, subprocess, os
 ALL = ["C%02d" % i for i in range(1, 21)]
 CHECKS = {
+ "C02": dict(cat="model_checking", tech="TLA+ transport model with the four flow-direction cases transcribed literally, composed with the water cascade (Nitrogen.tla, TLC exhaustive; pre-fix drain case refuted as control) + kernel replay of the real Water()+nmove() on seeded states + trace validation of generated runs (two-limb N ledgers with reconstructed clamp)",
+   text="Design level: Nitrogen.tla takes the fluxes of every sub-step from WaterFn!Step (only states the real Water can hand over) and checks that convection removes exactly what leaching and drain loss report, for all concentration patterns, and that dispersion telescopes; the variant without the drain term under upward flow (the code before fix c0676bb) is refuted on every run as a control. Conformance: (a) real Water()+nmove() on 4 000 (thorough 60 000) seeded states reaching all sign cases, drain layer, capillary rise, dispersion on/off; (b) generated runs (leaching depth = bottom, >= 2 layers, drains over shallow groundwater, upward flow, deposition 0-60, fertiliser/irrigation/tillage, legumes, peat). TLC checks per sub-step: change of profile N = source - uptake - leaching - drain loss + clamp (1e-7 kg N/ha, two-sided, the clamp reconstructed per layer from the routine's own arrays), clamp >= 0 and below-threshold values flag the run; per stage that nothing else touches mineral N; denitrification withdraws what it reports; the day equation with the reported counters.",
+   note="Trusted: TLC + Json, exact big-float projection to 1e-9 kg limbs, probes. Domain: automatic fertilisation off, measurement days skipped, tillage within the profile; runs whose mineral N leaves 2e6 kg/ha are cut there and must have flagged themselves unstable.", ref="§8 C02"),
+ "C07": dict(cat="model_checking", tech="trace validation (TLA+ Trace_Run / Trace_Nmove invariants evaluated by TLC) of generated runs and kernel states for pool/counter bookkeeping and once-per-day crediting; design-level transport model as C02",
+   text="Conformance: on every event of generated runs (legumes on heavy-rain days, organic and mineral fertilisers of every table type, tillage 5-200 cm inside the profile, frozen and warm soil, peat) TLC checks: all pools and counters non-negative and finite, mineralisation moves N from pool to counter exactly (two-sided 1e-7), fertilisation adds exactly the table amounts of the scheduled event to the fast/slow pools and the mineral/ammonium sums while tillage mixing preserves pool+counter, pool+counter never shrinks over a day, dissolved <= applied, crop N grows by clamped uptake + fixation in the first sub-step only and cumulative fixation by the day's fixation once; a run-time panic ends the trace in a state the invariant NoPanic rejects. Kernel: the same crediting and non-negativity invariants on seeded Water()+nmove() states with fixation and 1-8 sub-steps.",
+   note="Trusted: as C02. Domain as C02 (leaching depth = profile bottom so that the leaching counter cannot legitimately decrease).", ref="§8 C07"),
  "C01": dict(cat="model_checking", tech="TLA+ transcription of the Burns cascade (WaterFn/Water.tla, TLC exhaustive on a 3-layer grid) + kernel replay (TLC evaluates the model's Step on inputs logged from the real Water()) + trace validation of whole generated runs (sub-step and day ledgers in two-limb fixed point)",
    text="Design level: Water.tla explores every state of a 3-layer cascade grid (quick 3.8e5, thorough >4e6 states) with Balance/DayCovers. Conformance: (a) the real Water() is driven over a seeded sample of the same grid and TLC checks the ledger on its outputs and equality with the model (drift 0 = the model is bound); (b) generated projects (1-20 layers, stones up to 95 %, drains, shallow groundwater, five ET methods, heavy-tail rain up to >1000 sub-steps per day, irrigation, measurement overwrite) are run through the real day loop with probes; TLC validates, for every sub-step and day of every run, the ledger equations (1e-9 cm), the sub-step chain, sub-step count and coverage of the day, hand-over between days and the reported percolation/capillary/drain counters.",
    note="Trusted: TLC + Json module, the worker's exact big-float projection to 1e-12 cm limbs, probe placement (guard verif). Constant groundwater and non-overwrite days for the day-to-day hand-over, as the property quantifies.", ref="§8 C01"),
